@@ -57,6 +57,13 @@ func genC11Msg(t *rapid.T, direct bool) C11Msg {
 		m.Rand = rapid.SliceOfN(rapid.Byte(), 1, 60).Draw(t, "rand")
 	}
 	if direct {
+		// a header type with a crashing decode/validate path (direct engine only: the flags are armed around the call)
+		switch rapid.IntRange(0, 15).Draw(t, "crashing") {
+		case 0:
+			m.Payload = "panic_decode"
+		case 1:
+			m.Payload = "panic_validate"
+		}
 		switch rapid.IntRange(0, 9).Draw(t, "special") {
 		case 0:
 			m.PresetData = "header"
@@ -125,6 +132,10 @@ func (m C11Msg) bytes(chain *vh.Chain, salt int) []byte {
 		base = vh.Variant(base, vh.AdvBadValidate, 1)
 	case "wrong_chain":
 		base = vh.Variant(base, vh.AdvWrongChain, 1)
+	case "panic_decode":
+		base = vh.Variant(base, vh.AdvPanicDecode, 1)
+	case "panic_validate":
+		base = vh.Variant(base, vh.AdvPanicValidate, 1)
 	case "empty":
 		return []byte{}
 	case "random":
@@ -193,6 +204,10 @@ func runC11Direct(t *testing.T, s C11Scenario) (res Result) {
 		msg := &pubsub.Message{Message: &pubsub_pb.Message{Data: data}}
 		_, decoded := c11Expect(data, "nil") // what the bytes decode to (nil if they do not decode or validate)
 		extractOK := decoded != nil
+		if m.Payload == "panic_decode" || m.Payload == "panic_validate" {
+			// decoding/validating these bytes panics inside the validator: contained and rejected
+			extractOK = false
+		}
 		switch m.PresetData {
 		case "header":
 			// a local publish attaches the header itself; the bytes are then not decoded again
@@ -206,7 +221,7 @@ func runC11Direct(t *testing.T, s C11Scenario) (res Result) {
 				}
 			}
 			msg.ValidatorData = decoded
-			extractOK = decoded.Validate() == nil
+			extractOK = decoded.Validate() == nil && m.Payload != "panic_validate" // panic_decode: the bytes are not decoded again
 		case "wrong_type":
 			msg.ValidatorData = "not a header" // extraction panics: must be contained and rejected
 			extractOK = false
@@ -244,6 +259,8 @@ func runC11Direct(t *testing.T, s C11Scenario) (res Result) {
 					res.failf("the validator let a panic escape: %v", r)
 				}
 			}()
+			vh.ArmPanics(true)
+			defer vh.ArmPanics(false)
 			got = sub.VerifVerifyMessage(ctx, peer.ID("sender"), msg)
 		}()
 		res.NonTrivial = want != pubsub.ValidationAccept || m.Unset == "set_later"
